@@ -177,7 +177,7 @@ class StubRegressor(RegressorMixin, SkBase):
     def fit(self, X, y):
         Xa = np.asarray(X, dtype=float)
         ya = np.asarray(y, dtype=float)
-        _record(self.tag, "fit", shape=list(Xa.shape),
+        _record(self.tag, "fit", shape=list(Xa.shape), obj=id(self),
                 X=np.round(Xa, 9).tolist() if Xa.size <= 400 else None,
                 y=np.round(ya, 9).tolist() if ya.size <= 400 else None)
         F = self._feat(Xa)
